@@ -19,8 +19,10 @@ from fv import common, design, rank, tlc
 from fv.report import Report
 
 IMPL_FLAGS = {"SortByDegree": True, "IterateExtra": True, "NumericBySet": True}
-CAT = {"f", "g", "h", "k"}
-LEVEL_NAMES = {"f": ["a", "b", "c", "d"], "g": ["G1", "G2", "G3", "G4"], "h": ["u", "v", "w", "x4"], "k": ["p", "q", "r", "s"]}
+CAT = {"f", "g", "h", "k", "m", "n"}
+NUMS = ("x", "z", "w")
+LEVEL_NAMES = {"f": ["a", "b", "c", "d"], "g": ["G1", "G2", "G3", "G4"], "h": ["u", "v", "w", "x4"], "k": ["p", "q", "r", "s"],
+               "m": ["m1", "m2", "m3", "m4"], "n": ["n1", "n2", "n3", "n4"]}
 
 # atoms: how an abstract factor is written in the formula and how many columns a numeric one has
 VARIANTS = {
@@ -30,14 +32,14 @@ VARIANTS = {
     "num": {"x": "scale(x)", "z": "center(z)"},
     "spline": {"x": "bs(x, df=4)", "z": "poly(z, 2)"},
 }
-NUM_WIDTH = {"x": 1, "z": 1, "scale(x)": 1, "center(z)": 1, "bs(x, df=4)": 4, "poly(z, 2)": 2}
+NUM_WIDTH = {"x": 1, "z": 1, "w": 1, "scale(x)": 1, "center(z)": 1, "bs(x, df=4)": 4, "poly(z, 2)": 2}
 
 
 def make_data(rng, factors, numeric_width_total):
     """Replicated complete factorial over the categorical factors with random level counts;
     numeric columns are random integers in general position."""
     cats = [f for f in factors if f in CAT]
-    nlev = {f: rng.randint(2, 4) for f in cats}
+    nlev = {f: rng.randint(2, 4) if len(cats) <= 4 else 2 for f in cats}   # many factors: two levels each (the layout stays small)
     cells = list(itertools.product(*[range(nlev[f]) for f in cats])) if cats else [()]
     reps = 2 + 3 * numeric_width_total + rng.randint(0, 1)
     rows = cells * reps
@@ -46,7 +48,7 @@ def make_data(rng, factors, numeric_width_total):
     for j, f in enumerate(cats):
         data[f] = np.array([LEVEL_NAMES[f][r[j]] for r in rows], dtype=object)
     n = len(rows)
-    for v in ("x", "z"):
+    for v in NUMS:
         data[v] = np.array(rng.sample(range(-60, 60 + 4 * n), n), dtype=np.int64)  # distinct: general position
     data["y"] = np.arange(n)
     return pd.DataFrame(data), nlev
@@ -95,7 +97,7 @@ def _check(args):
     quarters = variant.endswith("q")
     variant = variant[:-1] if quarters else variant
     wr = VARIANTS[variant]
-    width = {v: NUM_WIDTH[wr.get(v, v)] for v in ("x", "z")}
+    width = {v: NUM_WIDTH[wr.get(v, v)] for v in NUMS}
     numeric_parts = {tuple(sorted(f for f in t if f not in CAT)) for t in terms}
     total_w = sum(int(np.prod([width[v] for v in part])) for part in numeric_parts if part)
     df, nlev = make_data(rng, factors, total_w)
@@ -114,7 +116,7 @@ def _check(args):
     integer = rank.is_int_matrix(x)
     # numeric columns exactly as the code evaluated them (bs/poly/scale) for the reference basis
     numcols = {}
-    for v in ("x", "z"):
+    for v in NUMS:
         name = wr.get(v, v)
         if any(v in t for t in terms):
             term = None
@@ -343,6 +345,15 @@ def main(tier, seed):
         # four-way interactions need one more round of extra terms than any three-way family
         c4 = export_families(rep, "FactorsCat4", 4, 2)
         replay(rep, c4, seed + 3, ["plain"])
+        # six factors: two disjoint three-way interactions (the rounds of extra terms can outnumber the written terms)
+        c6 = export_families(rep, "FactorsCat6", 3, 2, catf=("f", "g", "h", "k", "m", "n"))
+        c6 = [c for c in c6 if len({f for t in c["terms"] for f in t}) >= 5]
+        replay(rep, c6, seed + 6, ["plain"], sample=400)
+        # three numeric variables: the numeric part of a mixed interaction is recognised in every order of its factors
+        n3 = export_families(rep, "FactorsNum3", 4, 2, catf=("f",))
+        n3 = [c for c in n3 if any(sum(1 for f in t if f in NUMS) >= 3 for t in c["terms"])]
+        replay(rep, n3, seed + 7, ["plain"], shuffle=True)
+        replay(rep, n3, seed + 8, ["plain"], shuffle=True)
         pick_traces(rep, 400, seed)
     else:
         replay(rep, cases, seed, ["plain"])
